@@ -1,30 +1,30 @@
 #!/bin/bash
 # mt_check_only.sh <list: "<dir> <Cxx>"> <out> — sandboxed mutation run: apply each change to the scratch
-# worktree /tmp/mt/repo, run the property's quick check from the copy /tmp/mt/verif (VERIF_REPO points at the
+# worktree ${MT_ROOT:-/tmp/mt}/repo, run the property's quick check from the copy ${MT_ROOT:-/tmp/mt}/verif (VERIF_REPO points at the
 # scratch worktree), undo. /verif and /repo stay free for editing meanwhile. MT_KEEP=1 keeps the existing copy.
 export GOFLAGS=-mod=mod GOPROXY=off GOSUMDB=off GOTOOLCHAIN=local
 list="$1"; out="$2"
-mkdir -p /tmp/mt
-if [ ! -d /tmp/mt/repo ]; then git -C /repo worktree add -q --detach /tmp/mt/repo HEAD; fi
-git -C /tmp/mt/repo checkout -- . ; git -C /tmp/mt/repo clean -fdq; git -C /tmp/mt/repo checkout -q --detach "$(git -C /repo rev-parse HEAD)"
+mkdir -p ${MT_ROOT:-/tmp/mt}
+if [ ! -d ${MT_ROOT:-/tmp/mt}/repo ]; then git -C /repo worktree add -q --detach ${MT_ROOT:-/tmp/mt}/repo HEAD; fi
+git -C ${MT_ROOT:-/tmp/mt}/repo checkout -- . ; git -C ${MT_ROOT:-/tmp/mt}/repo clean -fdq; git -C ${MT_ROOT:-/tmp/mt}/repo checkout -q --detach "$(git -C /repo rev-parse HEAD)"
 if [ -z "$MT_KEEP" ]; then
-  rsync -a --delete --exclude .git /verif/ /tmp/mt/verif/
-  sed -i 's#=> /repo#=> /tmp/mt/repo#' /tmp/mt/verif/harness/go.mod
+  rsync -a --delete --exclude .git /verif/ ${MT_ROOT:-/tmp/mt}/verif/
+  sed -i "s#=> /repo#=> ${MT_ROOT:-/tmp/mt}/repo#" ${MT_ROOT:-/tmp/mt}/verif/harness/go.mod
 fi
 while read -r d prop; do
   [ -z "$d" ] && continue
-  if ! git -C /tmp/mt/repo apply "$d/patch.diff" 2>/dev/null; then
-    if git -C /tmp/mt/repo apply --3way "$d/patch.diff" 2>/dev/null; then git -C /tmp/mt/repo reset -q; else echo "CHECK $d $prop DOES-NOT-APPLY" >> "$out"; continue; fi
+  if ! git -C ${MT_ROOT:-/tmp/mt}/repo apply "$d/patch.diff" 2>/dev/null; then
+    if git -C ${MT_ROOT:-/tmp/mt}/repo apply --3way "$d/patch.diff" 2>/dev/null; then git -C ${MT_ROOT:-/tmp/mt}/repo reset -q; else echo "CHECK $d $prop DOES-NOT-APPLY" >> "$out"; continue; fi
   fi
   t0=$(date +%s)
-  chk=$(cd /tmp/mt/verif && VERIF_REPO=/tmp/mt/repo timeout 1500 ./check "$prop" --tier quick 2>/tmp/mt/check.err); rc=$?
+  chk=$(cd ${MT_ROOT:-/tmp/mt}/verif && VERIF_REPO=${MT_ROOT:-/tmp/mt}/repo timeout 1500 ./check "$prop" --tier quick 2>${MT_ROOT:-/tmp/mt}/check.err); rc=$?
   first=$(echo "$chk" | grep -m1 "^VIOLATION\|^CHECK-BROKEN" | cut -c1-300)
   kf=$(echo "$chk" | grep -c "^KNOWN-FINDING")
   echo "CHECK $d $prop check_exit=$rc known=$kf secs=$(( $(date +%s) - t0 )) :: $first" >> "$out"
   if [ $rc -eq 1 ]; then
     rp=$(echo "$first" | sed -n 's/.*replay=\([^ ]*\).*/\1/p')
-    if [ -f "$rp" ]; then head -c 1500 "$rp" > "$d/check_replay_excerpt.txt"; elif [ -d "$rp" ]; then ls "$rp" | head -20 > "$d/check_replay_excerpt.txt"; fi
+    case "$d" in /verif/*) ;; *) if [ -f "$rp" ]; then head -c 1500 "$rp" > "$d/check_replay_excerpt.txt"; elif [ -d "$rp" ]; then ls "$rp" | head -20 > "$d/check_replay_excerpt.txt"; fi;; esac
   fi
-  git -C /tmp/mt/repo checkout -- . ; git -C /tmp/mt/repo clean -fdq
+  git -C ${MT_ROOT:-/tmp/mt}/repo checkout -- . ; git -C ${MT_ROOT:-/tmp/mt}/repo clean -fdq
 done < "$list"
 echo "BATCH-DONE" >> "$out"
